@@ -3,7 +3,8 @@
 // Usage: xlate -repo /repo -spec spec.json -out /verif/coq/Gen
 //
 // A spec lists output files; each output file lists items:
-//   {"kind":"const","file":"crypto/cipher_decrypt.go","names":["maxPadding"]}
+//   {"kind":"const","file":"crypto/keys.go","names":["Client"]}
+//   {"kind":"localconst","file":"crypto/cipher_decrypt.go","func":"Cipher.Decrypt","names":["maxPadding"]}
 //   {"kind":"func","file":"telegram/updates/gap_check.go","func":"checkGap",
 //    "name":"check_gap","params":["localState","remoteState","count"],
 //    "ret":"Z","rename":{"a.GetOffset()":"ao"},"skip":["a, b := e[i], e[j]"]}
@@ -752,6 +753,44 @@ func main() {
 			case "const":
 				for _, n := range it.Names {
 					emitConst(n)
+				}
+			case "localconst":
+				// constants declared with `const` inside the body of it.Func (any nesting depth)
+				lf, err := parser.ParseFile(fset, filepath.Join(*repo, it.File), nil, 0)
+				if err != nil {
+					die("parse %s: %v", it.File, err)
+				}
+				lfd := findFunc(lf, it.Func)
+				if lfd == nil || lfd.Body == nil {
+					die("function %s not found in %s", it.Func, it.File)
+				}
+				found := map[string]constant.Value{}
+				ast.Inspect(lfd.Body, func(n ast.Node) bool {
+					gd, ok := n.(*ast.GenDecl)
+					if !ok || gd.Tok != token.CONST {
+						return true
+					}
+					for _, sp := range gd.Specs {
+						vs := sp.(*ast.ValueSpec)
+						for i, nm := range vs.Names {
+							if i < len(vs.Values) {
+								if v, ok := pc.eval(vs.Values[i], 0); ok {
+									found[nm.Name] = v
+								}
+							}
+						}
+					}
+					return true
+				})
+				for _, n := range it.Names {
+					v, ok := found[n]
+					if !ok || v.Kind() != constant.Int {
+						die("local constant %s not found in %s of %s (shape not understood)", n, it.Func, it.File)
+					}
+					if !emitted[it.Prefix+n] {
+						emitted[it.Prefix+n] = true
+						fmt.Fprintf(&sb, "(* from %s : %s (local const) *)\nDefinition c_%s%s : Z := %s.\n", it.File, it.Func, it.Prefix, n, zlit(v))
+					}
 				}
 			case "func":
 				f, err := parser.ParseFile(fset, filepath.Join(*repo, it.File), nil, 0)
